@@ -223,6 +223,7 @@ fn logs() -> String {
 }
 
 struct State<K: EnrKey> {
+    builder: Option<enr::Builder<K>>,
     cur: Option<Enr<K>>,
     saved: std::collections::BTreeMap<usize, Enr<K>>,
     keys: std::collections::BTreeMap<String, K>,
@@ -243,7 +244,7 @@ fn do_insert<K: EnrKey>(e: &mut Enr<K>, k: &[u8], tv: &TVal, key: &K) -> Result<
 fn run_op<K: Kt>(st: &mut State<K>, t: &[&str]) -> String {
     let name = t[0];
     let slot = t[1];
-    let fail = t[2] == "1";
+    let fail: u8 = t[2].parse().unwrap_or(0);
     let a = &t[3..];
     let key = match st.keys.get(slot) {
         Some(k) => k,
@@ -317,7 +318,7 @@ fn run_op<K: Kt>(st: &mut State<K>, t: &[&str]) -> String {
             _ => panic!("unknown op {name}"),
         }
     }));
-    set_fail(false);
+    set_fail(0);
     let lg = logs();
     let head = match r {
         Ok(Ok(ret)) => format!("ok ret={ret}"),
@@ -329,77 +330,95 @@ fn run_op<K: Kt>(st: &mut State<K>, t: &[&str]) -> String {
     format!("{head} {lg} {rec}")
 }
 
-fn run_build<K: Kt>(st: &mut State<K>, t: &[&str]) -> String {
+fn apply_bcalls<K: EnrKey>(b: &mut enr::Builder<K>, calls: &[&str]) {
+    for m in calls {
+        let p: Vec<&str> = m.split('/').collect();
+        match p[0] {
+            "ip4" | "ip6" | "ip" => {
+                let ip = ip_of(&unhx(p[1]));
+                match (p[0], ip) {
+                    ("ip", ip) => {
+                        b.ip(ip);
+                    }
+                    ("ip4", IpAddr::V4(a)) => {
+                        b.ip4(a);
+                    }
+                    ("ip6", IpAddr::V6(a)) => {
+                        b.ip6(a);
+                    }
+                    _ => panic!("bad ip arg"),
+                }
+            }
+            "tcp4" => {
+                b.tcp4(p[1].parse().unwrap());
+            }
+            "tcp6" => {
+                b.tcp6(p[1].parse().unwrap());
+            }
+            "udp4" => {
+                b.udp4(p[1].parse().unwrap());
+            }
+            "udp6" => {
+                b.udp6(p[1].parse().unwrap());
+            }
+            "client" => {
+                let n = String::from_utf8(unhx(p[1])).unwrap();
+                let v = String::from_utf8(unhx(p[2])).unwrap();
+                let bb = if p[3] == "none" { None } else { Some(String::from_utf8(unhx(p[3])).unwrap()) };
+                b.client_info(n, v, bb);
+            }
+            "val" => {
+                let k = unhx(p[1]);
+                match parse_tval(p[2]) {
+                    TVal::B(x) => b.add_value(k, &x.as_slice()),
+                    TVal::U16(x) => b.add_value(k, &x),
+                    TVal::U64(x) => b.add_value(k, &x),
+                    TVal::S(x) => b.add_value(k, &x),
+                    TVal::L(x) => b.add_value(k, &x),
+                    TVal::Ip4(x) => b.add_value(k, &x),
+                    TVal::Ip6(x) => b.add_value(k, &x),
+                };
+            }
+            "raw" => {
+                b.add_value_rlp(unhx(p[1]), Bytes::from(unhx(p[2])));
+            }
+            _ => panic!("unknown builder method {}", p[0]),
+        }
+    }
+}
+
+/// `build <slot> <fail> <seq|-> calls..` starts a new builder; `rebuild <slot> <fail> calls..` applies further
+/// calls to the SAME builder object and builds again (a builder can be reused after Ok and after Err)
+fn run_build<K: Kt>(st: &mut State<K>, t: &[&str], again: bool) -> String {
     let slot = t[0];
-    let fail = t[1] == "1";
+    let fail: u8 = t[1].parse().unwrap_or(0);
     let key = match st.keys.get(slot) {
         Some(k) => k,
         None => return "nokey".into(),
     };
+    let mut b = if again {
+        match st.builder.take() {
+            Some(b) => b,
+            None => return "nobuilder".into(),
+        }
+    } else {
+        Enr::<K>::builder()
+    };
     set_fail(fail);
     let _ = logs();
     let r = catch_unwind(AssertUnwindSafe(|| {
-        let mut b = Enr::<K>::builder();
-        if t[2] != "-" {
-            b.seq(t[2].parse().unwrap());
-        }
-        for m in &t[3..] {
-            let p: Vec<&str> = m.split('/').collect();
-            match p[0] {
-                "ip4" | "ip6" | "ip" => {
-                    let ip = ip_of(&unhx(p[1]));
-                    match (p[0], ip) {
-                        ("ip", ip) => {
-                            b.ip(ip);
-                        }
-                        ("ip4", IpAddr::V4(a)) => {
-                            b.ip4(a);
-                        }
-                        ("ip6", IpAddr::V6(a)) => {
-                            b.ip6(a);
-                        }
-                        _ => panic!("bad ip arg"),
-                    }
-                }
-                "tcp4" => {
-                    b.tcp4(p[1].parse().unwrap());
-                }
-                "tcp6" => {
-                    b.tcp6(p[1].parse().unwrap());
-                }
-                "udp4" => {
-                    b.udp4(p[1].parse().unwrap());
-                }
-                "udp6" => {
-                    b.udp6(p[1].parse().unwrap());
-                }
-                "client" => {
-                    let n = String::from_utf8(unhx(p[1])).unwrap();
-                    let v = String::from_utf8(unhx(p[2])).unwrap();
-                    let bb = if p[3] == "none" { None } else { Some(String::from_utf8(unhx(p[3])).unwrap()) };
-                    b.client_info(n, v, bb);
-                }
-                "val" => {
-                    let k = unhx(p[1]);
-                    match parse_tval(p[2]) {
-                        TVal::B(x) => b.add_value(k, &x.as_slice()),
-                        TVal::U16(x) => b.add_value(k, &x),
-                        TVal::U64(x) => b.add_value(k, &x),
-                        TVal::S(x) => b.add_value(k, &x),
-                        TVal::L(x) => b.add_value(k, &x),
-                        TVal::Ip4(x) => b.add_value(k, &x),
-                        TVal::Ip6(x) => b.add_value(k, &x),
-                    };
-                }
-                "raw" => {
-                    b.add_value_rlp(unhx(p[1]), Bytes::from(unhx(p[2])));
-                }
-                _ => panic!("unknown builder method {}", p[0]),
+        if again {
+            apply_bcalls(&mut b, &t[2..]);
+        } else {
+            if t[2] != "-" {
+                b.seq(t[2].parse().unwrap());
             }
+            apply_bcalls(&mut b, &t[3..]);
         }
         b.build(key)
     }));
-    set_fail(false);
+    set_fail(0);
+    st.builder = Some(b);
     let lg = logs();
     match r {
         Ok(Ok(e)) => {
@@ -420,7 +439,7 @@ fn hash_of<K: EnrKey>(e: &Enr<K>) -> u64 {
 }
 
 fn run<K: Kt>(input: &mut dyn BufRead, out: &mut dyn Write) {
-    let mut st: State<K> = State { cur: None, saved: Default::default(), keys: Default::default() };
+    let mut st: State<K> = State { builder: None, cur: None, saved: Default::default(), keys: Default::default() };
     for line in input.lines() {
         let line = line.unwrap();
         let t: Vec<&str> = line.split_whitespace().collect();
@@ -487,33 +506,47 @@ fn run<K: Kt>(input: &mut dyn BufRead, out: &mut dyn Write) {
             "parse" | "json" => {
                 let sb = unhx(t[1]);
                 let _ = logs();
+                let mut alt = true;
                 let r = catch_unwind(AssertUnwindSafe(|| -> Option<Enr<K>> {
                     // arbitrary bytes are delivered as a (lossy) string: &str is the API's input type
                     let s = String::from_utf8_lossy(&sb).to_string();
                     if t[0] == "parse" {
                         s.parse::<Enr<K>>().ok()
                     } else {
-                        serde_json::from_str::<Enr<K>>(&s).ok()
+                        let main = serde_json::from_str::<Enr<K>>(&s).ok();
+                        // the other serde_json entry points must agree with from_str
+                        let same = |o: &Option<Enr<K>>| match (&main, o) {
+                            (Some(a), Some(b)) => a == b && a.to_base64() == b.to_base64(),
+                            (None, None) => true,
+                            _ => false,
+                        };
+                        let by_slice = serde_json::from_slice::<Enr<K>>(s.as_bytes()).ok();
+                        let by_reader = serde_json::from_reader::<_, Enr<K>>(std::io::Cursor::new(s.as_bytes().to_vec())).ok();
+                        let by_value = serde_json::from_str::<serde_json::Value>(&s).ok().and_then(|v| serde_json::from_value::<Enr<K>>(v).ok());
+                        alt = same(&by_slice) && same(&by_reader) && same(&by_value);
+                        main
                     }
                 }));
                 let lg = logs();
+                let alts = if t[0] == "json" { format!(" alt={}", alt as u8) } else { String::new() };
                 match r {
                     Ok(Some(e)) => {
                         let rec = rec_obs_guarded(&e);
                         st.cur = Some(e);
                         let _ = logs();
-                        format!("ok {lg} {rec}")
+                        format!("ok {lg}{alts} {rec}")
                     }
-                    Ok(None) => "err".into(),
+                    Ok(None) => format!("err{alts}"),
                     Err(_) => format!("panic {}", take_panic_msg()),
                 }
             }
             "reset" => {
-                st = State { cur: None, saved: Default::default(), keys: Default::default() };
+                st = State { builder: None, cur: None, saved: Default::default(), keys: Default::default() };
                 let _ = logs();
                 "reset".into()
             }
-            "build" => run_build(&mut st, &t[1..]),
+            "build" => run_build(&mut st, &t[1..], false),
+            "rebuild" => run_build(&mut st, &t[1..], true),
             "op" => run_op(&mut st, &t[1..]),
             "save" => {
                 let i: usize = t[1].parse().unwrap();
